@@ -9,6 +9,8 @@
 import GraphiqModel.Model.Compare
 import GraphiqModel.Proofs.Export
 import GraphiqModel.Model.Tableau
+import Mathlib.Data.List.Perm.Subperm
+import Mathlib.Data.List.Nodup
 namespace Graphiq.Compare
 open Graphiq Graphiq.Export
 
@@ -685,5 +687,196 @@ theorem directL_swapEquiv (c1 c2 : Circuit) (h1 : ∀ op ∈ c1.ops, InRange c1 
         exact hq (hq2 ▸ flat_inRange c2 c2.ops h2 o ho q (by simpa using hc))
       rw [e1, e2]
   · simp [hlen]
+
+/-! ## Part 7: the coded isomorphism relation is symmetric -/
+
+theorem nodupNd_iff (l : List Nd) : nodupNd l = true ↔ l.Nodup := by
+  induction l with
+  | nil => simp [nodupNd]
+  | cons a rest ih => simp [nodupNd, ih]
+
+theorem nodeMatch_symm (a b : NOp) : nodeMatch a b = nodeMatch b a := by
+  cases a with
+  | input w1 =>
+    cases b with
+    | input w2 => cases w1 with | mk t1 i1 => cases w2 with | mk t2 i2 => cases t1 <;> cases t2 <;> rfl
+    | output _ => rfl
+    | gate _ => rfl
+  | output w1 =>
+    cases b with
+    | output w2 => cases w1 with | mk t1 i1 => cases w2 with | mk t2 i2 => cases t1 <;> cases t2 <;> rfl
+    | input _ => rfl
+    | gate _ => rfl
+  | gate o1 =>
+    cases b with
+    | input _ => rfl
+    | output _ => rfl
+    | gate o2 =>
+      cases o1 <;> cases o2 <;> simp only [nodeMatch] <;>
+        (apply Bool.eq_iff_iff.2; simp only [Bool.and_eq_true, beq_iff_eq]; constructor <;> (intro h; exact ⟨h.1.symm, h.2.symm⟩))
+
+theorem edgeMatch_symm (a b : List Edge) : edgeMatch a b = edgeMatch b a := by
+  cases a <;> cases b <;> simp only [edgeMatch] <;> (apply Bool.eq_iff_iff.2; simp only [beq_iff_eq]; exact eq_comm)
+
+/-- the node function of an association list -/
+def mapFn (f : List (Nd × Nd)) (n : Nd) : Nd := (applyMap f n).getD n
+
+/-- the inverse association list on the nodes `ns` -/
+def invMap (f : List (Nd × Nd)) (ns : List Nd) : List (Nd × Nd) := ns.map fun n => (mapFn f n, n)
+
+theorem applyMap_invMap (f : List (Nd × Nd)) (ns : List Nd) (hinj : ∀ a ∈ ns, ∀ b ∈ ns, mapFn f a = mapFn f b → a = b)
+    (n : Nd) (hn : n ∈ ns) : applyMap (invMap f ns) (mapFn f n) = some n := by
+  unfold applyMap invMap
+  cases hf : (ns.map fun n => (mapFn f n, n)).find? (fun p => p.1 == mapFn f n) with
+  | none =>
+    exfalso
+    have := List.find?_eq_none.1 hf (mapFn f n, n) (List.mem_map_of_mem hn)
+    simp at this
+  | some p =>
+    have hp := List.find?_some hf
+    have hm := List.mem_of_find?_eq_some hf
+    obtain ⟨n0, hn0, rfl⟩ := List.mem_map.1 hm
+    simp only [beq_iff_eq] at hp
+    simp only [Option.map_some]
+    exact congrArg some (hinj n0 hn0 n hn hp)
+
+/-- what a successful `isoCheck` says, as propositions about the node function -/
+structure IsoFacts (g1 g2 : MG) (φ : Nd → Nd) : Prop where
+  len : (g1.nodes.map (·.1)).length = (g2.nodes.map (·.1)).length
+  nodup : ((g1.nodes.map (·.1)).map φ).Nodup
+  into : ∀ n ∈ g1.nodes.map (·.1), φ n ∈ g2.nodes.map (·.1)
+  nodes : ∀ n ∈ g1.nodes.map (·.1), ∃ a b, g1.opOf n = some a ∧ g2.opOf (φ n) = some b ∧ nodeMatch a b = true
+  edges : ∀ u ∈ g1.nodes.map (·.1), ∀ v ∈ g1.nodes.map (·.1),
+    (g1.edgesBetween u v).length = (g2.edgesBetween (φ u) (φ v)).length ∧
+    edgeMatch (g1.edgesBetween u v) (g2.edgesBetween (φ u) (φ v)) = true
+
+theorem isoCheck_facts (g1 g2 : MG) (f : List (Nd × Nd)) (h : isoCheck g1 g2 f = true) :
+    (∀ n ∈ g1.nodes.map (·.1), applyMap f n = some (mapFn f n)) ∧ IsoFacts g1 g2 (mapFn f) := by
+  unfold isoCheck at h
+  simp only [Bool.and_eq_true, List.all_eq_true, beq_iff_eq] at h
+  obtain ⟨⟨⟨⟨⟨hlen, hsome⟩, hnd⟩, hinto⟩, hnodes⟩, hedges⟩ := h
+  have happ : ∀ n ∈ g1.nodes.map (·.1), applyMap f n = some (mapFn f n) := by
+    intro n hn
+    have := hsome (applyMap f n) (List.mem_map_of_mem hn)
+    unfold mapFn
+    cases hm : applyMap f n with
+    | none => rw [hm] at this; cases this
+    | some m => rfl
+  have himg : ((g1.nodes.map (·.1)).map (applyMap f)).filterMap id = (g1.nodes.map (·.1)).map (mapFn f) := by
+    rw [List.filterMap_map]
+    generalize g1.nodes.map (·.1) = ns at happ
+    induction ns with
+    | nil => rfl
+    | cons n rest ih =>
+      have ih' := ih (fun x hx => happ x (by simp [hx]))
+      simp only [List.filterMap_cons, Function.comp, id, happ n (by simp), List.map_cons]
+      exact congrArg _ ih' 
+  rw [himg] at hnd hinto
+  refine ⟨happ, ⟨hlen, (nodupNd_iff _).1 hnd, ?_, ?_, ?_⟩⟩
+  · intro n hn
+    have := hinto (mapFn f n) (List.mem_map_of_mem hn)
+    simpa using this
+  · intro n hn
+    have := hnodes n hn
+    rw [happ n hn] at this
+    cases ha : g1.opOf n with
+    | none => simp [ha] at this
+    | some a =>
+      cases hb : g2.opOf (mapFn f n) with
+      | none => simp [ha, hb] at this
+      | some b => simp only [ha, hb] at this; exact ⟨a, b, rfl, rfl, this⟩
+  · intro u hu v hv
+    have := hedges u hu v hv
+    rw [happ u hu, happ v hv] at this
+    simpa using this
+
+/-- conversely, the facts make the check succeed for any association list that realises the node function -/
+theorem isoCheck_of_facts (g1 g2 : MG) (f : List (Nd × Nd)) (φ : Nd → Nd)
+    (happ : ∀ n ∈ g1.nodes.map (·.1), applyMap f n = some (φ n)) (h : IsoFacts g1 g2 φ) : isoCheck g1 g2 f = true := by
+  have himg : (g1.nodes.map (·.1)).map (applyMap f) = (g1.nodes.map (·.1)).map (fun n => some (φ n)) :=
+    List.map_congr_left happ
+  have hfm : ((g1.nodes.map (·.1)).map (fun n => some (φ n))).filterMap id = (g1.nodes.map (·.1)).map φ := by
+    rw [List.filterMap_map]
+    have : (id ∘ fun n => some (φ n)) = fun n => some (φ n) := rfl
+    rw [this]
+    induction g1.nodes.map (·.1) with
+    | nil => rfl
+    | cons n rest ih => simp [ih]
+  unfold isoCheck
+  simp only [himg, hfm, Bool.and_eq_true, List.all_eq_true, beq_iff_eq]
+  refine ⟨⟨⟨⟨⟨h.len, ?_⟩, (nodupNd_iff _).2 h.nodup⟩, ?_⟩, ?_⟩, ?_⟩
+  · intro o ho
+    obtain ⟨n, _, rfl⟩ := List.mem_map.1 ho
+    rfl
+  · intro m hm
+    obtain ⟨n, hn, rfl⟩ := List.mem_map.1 hm
+    simpa using h.into n hn
+  · intro n hn
+    rw [happ n hn]
+    obtain ⟨a, b, ha, hb, hab⟩ := h.nodes n hn
+    simp only [ha, hb, hab]
+  · intro u hu v hv
+    rw [happ u hu, happ v hv]
+    have := h.edges u hu v hv
+    simp [this.1, this.2]
+
+/-- **symmetry of the coded isomorphism relation**: if some map passes the check from `g1` to `g2`, the inverse map
+    passes it from `g2` to `g1` -/
+theorem isoCheck_symm (g1 g2 : MG) (f : List (Nd × Nd)) (h : isoCheck g1 g2 f = true) :
+    isoCheck g2 g1 (invMap f (g1.nodes.map (·.1))) = true := by
+  obtain ⟨_, hf⟩ := isoCheck_facts g1 g2 f h
+  let ns1 := g1.nodes.map (·.1)
+  let ns2 := g2.nodes.map (·.1)
+  let φ := mapFn f
+  -- φ is injective on ns1 and onto ns2
+  have hinj : ∀ a ∈ ns1, ∀ b ∈ ns1, φ a = φ b → a = b := fun a ha b hb hab =>
+    List.inj_on_of_nodup_map hf.nodup ha hb hab
+  have hsub : ns1.map φ ⊆ ns2 := by
+    intro m hm
+    obtain ⟨n, hn, rfl⟩ := List.mem_map.1 hm
+    exact hf.into n hn
+  have hperm : (ns1.map φ).Perm ns2 :=
+    (List.subperm_of_subset hf.nodup hsub).perm_of_length_le (by simp [ns1, ns2, ← hf.len])
+  have hnd2 : ns2.Nodup := hperm.nodup_iff.1 hf.nodup
+  have hsurj : ∀ m ∈ ns2, ∃ n ∈ ns1, φ n = m := by
+    intro m hm
+    have := hperm.mem_iff.2 hm
+    obtain ⟨n, hn, rfl⟩ := List.mem_map.1 this
+    exact ⟨n, hn, rfl⟩
+  -- the inverse node function on ns2
+  let ψ : Nd → Nd := mapFn (invMap f ns1)
+  have hψ : ∀ n ∈ ns1, ψ (φ n) = n := by
+    intro n hn
+    show (applyMap (invMap f ns1) (mapFn f n)).getD _ = n
+    rw [applyMap_invMap f ns1 hinj n hn]; rfl
+  have happ : ∀ m ∈ ns2, applyMap (invMap f ns1) m = some (ψ m) := by
+    intro m hm
+    obtain ⟨n, hn, rfl⟩ := hsurj m hm
+    rw [hψ n hn]
+    exact applyMap_invMap f ns1 hinj n hn
+  apply isoCheck_of_facts g2 g1 _ ψ happ
+  refine ⟨hf.len.symm, ?_, ?_, ?_, ?_⟩
+  · -- ψ is injective on ns2
+    apply (List.nodup_map_iff_inj_on hnd2).2
+    intro a ha b hb hab
+    show a = b
+    obtain ⟨na, hna, rfl⟩ := hsurj a ha
+    obtain ⟨nb, hnb, rfl⟩ := hsurj b hb
+    rw [hψ na hna, hψ nb hnb] at hab
+    rw [hab]
+  · intro m hm
+    obtain ⟨n, hn, rfl⟩ := hsurj m hm
+    rw [hψ n hn]; exact hn
+  · intro m hm
+    obtain ⟨n, hn, rfl⟩ := hsurj m hm
+    rw [hψ n hn]
+    obtain ⟨a, b, ha, hb, hab⟩ := hf.nodes n hn
+    exact ⟨b, a, hb, ha, by rw [nodeMatch_symm]; exact hab⟩
+  · intro u' hu' v' hv'
+    obtain ⟨u, hu, rfl⟩ := hsurj u' hu'
+    obtain ⟨v, hv, rfl⟩ := hsurj v' hv'
+    rw [hψ u hu, hψ v hv]
+    have := hf.edges u hu v hv
+    exact ⟨this.1.symm, by rw [edgeMatch_symm]; exact this.2⟩
 
 end Graphiq.Compare
